@@ -61,6 +61,57 @@ _TOK2INT = {t: (0 if t == "v_x" else 1000 + i) for i, t in enumerate(_TOKENS)}  
 _INT2TOK = {v: k for k, v in _TOK2INT.items()}
 
 
+class IntSub(int):
+    """an int subclass that, unlike attrs' `_CacheHashWrapper`, pickles as itself"""
+
+
+IntSub.__module__ = __name__
+IntSub.__qualname__ = "IntSub"
+NAN = float("nan")
+SPECIALS = {
+    "nothing": attr.NOTHING, "none": None, "notimpl": NotImplemented, "ellipsis": Ellipsis, "false": False,
+    "zero": 0, "emptystr": "", "emptytuple": (), "nan": NAN, "intsub": IntSub(7), "cachename": CACHE,
+    "inner": None,      # an instance of the same class with ordinary values, built on demand
+}
+
+
+def _is_special(kind, v, leaf):
+    if kind == "nan":
+        return type(v) is float and v != v
+    if kind == "inner":
+        return leaf is not None and type(v) is leaf
+    if kind == "intsub":
+        return type(v) is IntSub and int(v) == 7
+    if kind in ("nothing", "none", "notimpl", "ellipsis", "false"):
+        return v is SPECIALS[kind]
+    return type(v) is type(SPECIALS[kind]) and v == SPECIALS[kind]
+
+
+def field_value(f, token, leaf=None, fields=None):
+    """the Python value standing for `token` in field `f`: fields with a `special` hold that unusual value as
+    their original value (`v_<name>`); the changed value (`m_<name>`) is always an ordinary one"""
+    sp = f.get("special")
+    if sp and token == "v_" + f["name"]:
+        if sp == "inner":
+            plain = [dict(g, special=None) for g in fields]
+            inner = _construct(leaf, plain, {g["name"]: "v_" + g["name"] for g in plain})
+            for g in plain:
+                if not g["init"]:
+                    object.__setattr__(inner, g["name"], mk_value(g["kind"], "v_" + g["name"]))
+            return inner
+        return SPECIALS[sp]
+    return mk_value(f["kind"], token)
+
+
+def canon_field(f, v, leaf):
+    sp = f.get("special") if f else None
+    if sp and _is_special(sp, v, leaf):
+        return "v_" + f["name"]
+    if v is None:
+        return "None"
+    return canon(v)
+
+
 def mk_value(kind, token):
     if kind == "int":
         return _TOK2INT[token]
@@ -154,7 +205,8 @@ _CACHE_CLASSES: dict = {}
 
 def get_classes(chain):
     import json
-    key = json.dumps(chain, sort_keys=True)
+    key = json.dumps([dict(c, fields=[{k: v for k, v in f.items() if k != "special"} for f in c["fields"]])
+                      for c in chain], sort_keys=True)
     got = _CACHE_CLASSES.get(key)
     if got is None:
         if len(_CACHE_CLASSES) > 400:
@@ -192,7 +244,7 @@ def _construct(leaf, fields, tokens):
     kwargs = {}
     for f in fields:
         if f["init"]:
-            kwargs[by_name[f["name"]].alias] = mk_value(f["kind"], tokens[f["name"]])
+            kwargs[by_name[f["name"]].alias] = field_value(f, tokens[f["name"]], leaf, fields)
     return leaf(**kwargs)
 
 
@@ -223,7 +275,7 @@ def _history(case, leaf, fields, hashed):
     if case["assignUnset"]:
         for f in fields:
             if not f["init"]:
-                object.__setattr__(inst, f["name"], mk_value(f["kind"], "v_" + f["name"]))
+                object.__setattr__(inst, f["name"], field_value(f, "v_" + f["name"], leaf, fields))
     if hashed:
         try:
             hash(inst)
@@ -271,7 +323,7 @@ def _run(case, leaf):
     obs["sameClass"] = type(cp) is type(orig)
     for n in real_names:                     # in the order the class reports its fields
         v = getattr(cp, n, ABSENT)
-        obs["fields"].append([n, None if v is ABSENT else canon(v)])
+        obs["fields"].append([n, None if v is ABSENT else canon_field(by_name.get(n), v, leaf)])
         if op == "copy" and type(v) is Box and v is getattr(orig, n, ABSENT):
             obs["aliased"].append(n)
     c = getattr(cp, CACHE, ABSENT)
